@@ -30,27 +30,29 @@ type (
 	// clientState holds all state associated with processing commands. A
 	// client processes one command at a time.
 	clientState struct {
-		l               lane.Lane
-		mu              sync.Mutex
-		dss             *dataStoreSet
-		selectedDb      int
-		ds              *dataStore
-		id              int64
-		name            string
-		user            string
-		client          RedisClient
-		disp            *cmdDispatcher
-		cmdQueue        *[]*cmdContext
-		watches         map[watchKey]uint64
-		queueError      bool
-		blocked         int32
-		unblockPending  int32
-		unblockCh       chan unblockReason
-		respVersion     int
-		noEvict         bool
-		multiInProgress bool
-		libName         string
-		libVer          string
+		l          lane.Lane
+		mu         sync.Mutex
+		dss        *dataStoreSet
+		selectedDb int
+		ds         *dataStore
+		id         int64
+		name       string
+		user       string
+		client     RedisClient
+		disp       *cmdDispatcher
+		cmdQueue   *[]*cmdContext
+		watches    map[watchKey]uint64
+		queueError bool
+		// EXEC holds multiDataStoreLock for a queued FLUSHALL (only this connection's goroutine looks)
+		multiStoreLockHeld bool
+		blocked            int32
+		unblockPending     int32
+		unblockCh          chan unblockReason
+		respVersion        int
+		noEvict            bool
+		multiInProgress    bool
+		libName            string
+		libVer             string
 	}
 )
 
